@@ -360,6 +360,10 @@ impl Function for AvgFn {
             )
         })?;
 
+        if values.is_empty() {
+            return Ok(Rcvar::new(Variable::Null));
+        }
+
         let mut sum = 0.0;
 
         for value in values {
